@@ -28,7 +28,7 @@ import (
 type c19Case struct {
 	CIDR       string   `json:"cidr"` // real delegate: ipRequestGenerator (+ exclusion filter) over this subnet; "" => scripted delegate
 	Exclude    []string `json:"exclude,omitempty"`
-	PassSizes  []int    `json:"scripted_pass_sizes,omitempty"` // scripted delegate: size of pass k (cyclic)
+	PassSizes  []int    `json:"scripted_pass_sizes,omitempty"`     // scripted delegate: size of pass k (cyclic)
 	FailPass   int      `json:"scripted_pass_that_fails_to_start"` // 0: none; k: the k-th GenerateRequests call returns an error
 	FailOn     bool     `json:"and_every_later_pass_fails_too"`
 	IntervalMs int      `json:"rescan_interval_ms"`
@@ -125,7 +125,9 @@ func c19Check(c c19Case) *kit.Verdict {
 		inner = scan.NewIPRequestGenerator(scan.NewIPGenerator())
 		if len(c.Exclude) > 0 {
 			v.Label("exclude")
-			ex, err := parseExcludeFile(func() (io.ReadCloser, error) { return io.NopCloser(strings.NewReader(strings.Join(c.Exclude, "\n") + "\n")), nil })
+			ex, err := parseExcludeFile(func() (io.ReadCloser, error) {
+				return io.NopCloser(strings.NewReader(strings.Join(c.Exclude, "\n") + "\n")), nil
+			})
 			if err != nil {
 				return v.Failf("harness: exclusion: %v", err)
 			}
@@ -367,13 +369,13 @@ func TestC19Live(t *testing.T) {
 // ---------------------------------------------------------------- the arp --live command
 
 type c19CmdCase struct {
-	Bits       int    `json:"prefix_bits"`
-	IntervalMs int    `json:"live_ms"`
-	Passes     int    `json:"sigint_after_passes"`
-	Extra      int    `json:"plus_frames"`
-	Hosts      []int  `json:"answering_host_offsets"`
-	Exclude    bool   `json:"exclude_first_address"`
-	Seed       int64  `json:"rand_seed"`
+	Bits       int   `json:"prefix_bits"`
+	IntervalMs int   `json:"live_ms"`
+	Passes     int   `json:"sigint_after_passes"`
+	Extra      int   `json:"plus_frames"`
+	Hosts      []int `json:"answering_host_offsets"`
+	Exclude    bool  `json:"exclude_first_address"`
+	Seed       int64 `json:"rand_seed"`
 }
 
 func c19CmdCheck(c c19CmdCase) *kit.Verdict {
